@@ -16,7 +16,7 @@ from vf.core import CaseResult, Ctx, Violation, hyp_run, exc_sig
 
 PROP_ID = 'C39'
 LEVEL = 'exploration'
-BUDGET = {'quick': 16000, 'thorough': 480000}
+BUDGET = {'quick': 12000, 'thorough': 480000}
 RULE = (
     'Hypothesis draws a name either (50%) as 1-7 path components joined by '
     '"/" -- components from: plain words, unicode words, ".", "..", "", the '
@@ -39,6 +39,10 @@ ASSUMPTIONS = [
     'components of the normalised name.',
     'Names that validation rejects (WorkflowFilesError) are out of scope; any '
     'other exception type from validation is reported separately.',
+    'Sensitivity (tools/mut.sh, quick): detected: startswith(os.curdir) test '
+    'dropped, isabs test dropped, normpath dropped (validate before '
+    'normalising), reserved names compared with the whole name instead of '
+    'its parts, run<N> pattern dropped.',
 ]
 MANIFEST = {'engine': 'P', 'technique': 'Hypothesis containment oracle on normpath'}
 
